@@ -79,6 +79,7 @@ func CheckContinuous(r *verifsim.Run, t *Trace, maxF int, prop, rulePrefix strin
 	recs, bad := t.Protocol(SinkCont)
 	if bad != "" {
 		r.Violate("C12", "C12.protocol", "continuous:"+stripEv(bad), "continuous sink: %s", bad)
+		r.Violate(prop, rulePrefix+".protocol", stripEv(bad), "continuous sink: %s — frames of an unclosed or unopened file land in no finished file (calls around it: %s)", bad, t.CallString(SinkCont, evOf(bad)-3, evOf(bad)+1))
 		return
 	}
 	ix := indexTrace(t)
@@ -143,6 +144,7 @@ func CheckTestRecordings(r *verifsim.Run, t *Trace) {
 	recs, bad := t.Protocol(SinkTest)
 	if bad != "" {
 		r.Violate("C12", "C12.protocol", "test:"+stripEv(bad), "test sink: %s", bad)
+		r.Violate("C17", "C17.test", "protocol:"+stripEv(bad), "test sink: %s (calls around it: %s)", bad, t.CallString(SinkTest, evOf(bad)-3, evOf(bad)+1))
 		return
 	}
 	ix := indexTrace(t)
